@@ -334,13 +334,6 @@ impl LspContext {
         Ok(())
     }
 
-    fn join(self) -> MosResult<()> {
-        if let Some(io) = self.connection.unwrap().1 {
-            io.join()?;
-        }
-        Ok(())
-    }
-
     fn find_definitions<'a>(
         &'a self,
         analysis: &'a Analysis,
@@ -438,12 +431,15 @@ impl LspServer {
             .unwrap()
             .initialize(server_capabilities)?;
         self.main_loop(initialization_params)?;
-        Arc::try_unwrap(self.context)
-            .ok()
-            .unwrap()
-            .into_inner()
-            .unwrap()
-            .join()?;
+        // The context is shared with the debug server, so it cannot be unwrapped here: take the connection out instead
+        let connection = self.lock_context().connection.take();
+        if let Some((connection, io_threads)) = connection {
+            // The writer thread only ends once every sender is gone
+            drop(connection);
+            if let Some(io_threads) = io_threads {
+                io_threads.join()?;
+            }
+        }
 
         log::info!("Shutting down MOS language server");
         Ok(())
